@@ -104,7 +104,7 @@ func runC13(c *Ctx) {
 		"waits on the close channel or the ticker, and on the not-hunted/not-closed exit every path to the return passes the restoring request (router pair). StartHunt inserts and starts the loop only when the MAC is not yet hunted, " +
 		"inside one arpMutex critical section; StopHunt deletes under the mutex. Not decided: real-time bounds, overlap of an old and a new loop after StopHunt/StartHunt."
 	r.Rule("send-classified", "every send in ProcessPacket/spoofLoop is truthful or a guarded forgery", 4)
-	r.Rule("loop-structure", "spoofLoop: membership test each iteration under the mutex, stoppable wait, restore on exit", 5)
+	r.Rule("loop-structure", "spoofLoop: membership test each iteration under the mutex, stoppable wait on its own timer, single exit, restore on exit", 7)
 	r.Rule("hunt-admin", "StartHunt idempotent under the mutex; StopHunt deletes under the mutex", 4)
 	r.Rule("api-truthful", "Request/RequestTo/Probe use the host address pair as sender", 3)
 
@@ -308,6 +308,58 @@ func runC13(c *Ctx) {
 		}
 		r.Add(core.Obligation{Rule: "loop-structure", Key: "loop-structure wait selects on closeChan", Func: core.FuncName(loop), Status: st,
 			Basis: "blocking select with a receive on closeChan inside the loop", Detail: "the loop's wait does not select on the handler's close channel"})
+		// (b') the wait's other channels are the loop's own: a timer made in this function. A channel held by the handler is
+		// shared by the loops of all targets and each tick wakes only one of them
+		core.EachInstr(loop, func(i ssa.Instruction) {
+			s, ok := i.(*ssa.Select)
+			if !ok || !l.Blocks[s.Block()] {
+				return
+			}
+			for _, stt := range s.States {
+				if stt.Dir != types.RecvOnly || strings.HasSuffix(norm(stt.Chan), ".closeChan") {
+					continue
+				}
+				own := false
+				for v := range dataSlice(loop, stt.Chan) {
+					if call, isCall := v.(*ssa.Call); isCall {
+						if cal := call.Common().StaticCallee(); cal != nil {
+							switch core.FuncName(cal) {
+							case "time.NewTicker", "time.NewTimer", "time.After", "time.Tick":
+								own = true
+							}
+						}
+					}
+				}
+				s2 := core.Proved
+				if !own {
+					s2 = core.Violated
+				}
+				r.Add(core.Obligation{Rule: "loop-structure", Key: "loop-structure wait timer is the loop's own", Func: core.FuncName(loop), Pos: c.P.Pos(core.PosOf(i)), Status: s2,
+					Basis: "the timer channel of the wait comes from a time.NewTicker/NewTimer/After call in spoofLoop", Detail: "spoofLoop waits on " + norm(stt.Chan) + ", a channel not made by a timer of this loop: shared between the loops of all hunted targets, each tick wakes only one of them and the others stop re-poisoning"})
+			}
+		})
+		// (b'') the loop has one way out: once a forged packet has been sent, a return is reachable only through the
+		// membership test (a return on a send error leaves the target in the hunt list with no loop: StartHunt is then a
+		// no-op and StopHunt restores nothing). The ICMPv6 sibling logs a send error and carries on.
+		for _, site := range callsIn(loop, nameIs("AnnounceTo")) {
+			s2, det := core.Proved, ""
+			core.EachInstr(loop, func(j ssa.Instruction) {
+				ret, ok := j.(*ssa.Return)
+				if !ok {
+					return
+				}
+				isLookup := func(k ssa.Instruction) bool {
+					lk, ok := k.(*ssa.Lookup)
+					return ok && strings.HasSuffix(norm(lk.X), ".huntList")
+				}
+				if reachesWithout(site.(ssa.Instruction), ret, isLookup) {
+					s2 = core.Violated
+					det = "after the forged announcement spoofLoop can reach the return at " + c.P.Pos(core.PosOf(ret)) + " without testing the hunt list again: the target stays in the hunt list with no loop, StartHunt for it is a no-op and StopHunt sends no restoring packet"
+				}
+			})
+			r.Add(core.Obligation{Rule: "loop-structure", Key: "loop-structure the only exit is the membership test", Func: core.FuncName(loop), Pos: c.P.Pos(core.PosOf(site.(ssa.Instruction))), Status: s2,
+				Basis: "no return reachable from the forged send without passing the hunt-list lookup", Detail: det})
+		}
 		// (c) restore on the exit path with closed == false
 		restored := false
 		for _, site := range callsIn(loop, nameIs("RequestRaw")) {
